@@ -5,6 +5,21 @@ import json, os, subprocess
 ROOT = os.path.dirname(os.path.dirname(os.path.abspath(__file__)))
 
 CLAIMED = {
+ "C15": dict(
+   text="Theorems in Coq: C15_getstring_total / C15_getstring_spec — for EVERY tracee memory (any pages unreadable, any bytes) and every address, the "
+        "model of Context.GetString (page-wise vmReadStr with Go's slice-bounds rule as a panic outcome, the PEEKDATA fallback, clen) never panics "
+        "and returns exactly the bytes before the first NUL among the readable bytes, at most PATH_MAX; C15_verdict_about_program — with ptrace "
+        "requests that succeed or answer ESRCH (what a program can provoke) the tracer's loop reports Runner Error only when the main task exits "
+        "before the target was exec'ed; C15_progress — every stop is answered by the end of the run, by exactly one PTRACE_CONT, or the task is "
+        "already gone.  The two defects of the pinned tree are kept as a theorem about the unfixed clen and were repaired by two fix: commits.  Tie "
+        "on every run: GetString on the harness's own memory with crafted protections / NUL placements / offsets around page boundaries vs the "
+        "model in Coq; ptraceHandle.handle with ESRCH answers (C09 run); 21 hostile traced scenarios with every syscall trapping, the three "
+        "kill-while-stopped races repeated 60 (thorough 600) times; elapsed time per run.",
+   note="Partial: kernel-level interleavings (which task is killed when) are sampled by the repeated race scenarios, the theorem quantifies over "
+        "the request outcomes {ok, ESRCH}.  Trusted: Coq kernel + vm_compute; ptrace rule PT3 (any request may answer ESRCH once the tracee was "
+        "killed); process_vm_readv transfers up to the first unreadable page (validated by the crafted-memory runs).",
+   technique="Coq proof (induction on the read loop with page arithmetic; exhaustive case analysis of the tracer step) + differential evaluation + hostile traced runs",
+   design="§5 C15"),
  "C06": dict(
    text="C06_shuffle, proved in Coq by induction over the list for an executable model of prepareFds / pass 1 / pass 2 over a model of the "
         "kernel's descriptor table: for EVERY descriptor list (length, order, repeats, the close marker, values below or above their slot) and "
